@@ -232,11 +232,13 @@ const (
 
 func (s *session) changeStatus(stat int32) {
 	atomic.StoreInt32(&s.status, stat)
+	verifStatus(s, stat)
 }
 
 func (s *session) tryChangeStatus(to int32, fromList ...int32) (changed bool) {
 	for _, from := range fromList {
 		if atomic.CompareAndSwapInt32(&s.status, from, to) {
+			verifStatus(s, to)
 			return true
 		}
 	}
@@ -720,6 +722,7 @@ func (s *session) AsyncCall(
 	defer cmd.mu.Unlock()
 
 	s.callCmdMap.Store(seq, cmd)
+	verifGate("call.stored", s)
 
 	defer func() {
 		if p := recover(); p != nil {
@@ -772,11 +775,15 @@ func (s *session) closeLocked() error {
 	if !s.tryChangeStatus(statusActiveClosing, statusOk, statusPreparing) {
 		return nil
 	} // readDisconnected is being called
+	verifGate("close.cas", s)
 	s.peer.sessHub.delete(s.ID())
 	s.notifyClosed()
 	s.graceCtxWait()
+	verifGate("close.ctxwaited", s)
 	s.graceCallCmdWaitGroup.Wait()
+	verifGate("close.callwaited", s)
 	s.changeStatus(statusActiveClosed)
+	verifGate("close.presock", s)
 	err := s.socket.Close()
 	s.peer.pluginContainer.postDisconnect(s)
 	return err
@@ -784,6 +791,7 @@ func (s *session) closeLocked() error {
 
 func (s *session) readDisconnected(oldConn net.Conn, err error) {
 	status := s.getStatus()
+	verifGate("disc.read", s)
 	switch status {
 	case statusPassiveClosed, statusActiveClosed, statusPassiveClosing:
 		return
@@ -791,6 +799,7 @@ func (s *session) readDisconnected(oldConn net.Conn, err error) {
 	default:
 		s.changeStatus(statusPassiveClosing)
 	}
+	verifGate("disc.stored", s)
 
 	s.peer.sessHub.delete(s.ID())
 
@@ -802,6 +811,7 @@ func (s *session) readDisconnected(oldConn net.Conn, err error) {
 		}
 	}
 	s.graceCtxWait()
+	verifGate("disc.precancel", s)
 
 	// cancel the callCmd that is waiting for a reply
 	s.callCmdMap.Range(func(_, v interface{}) bool {
@@ -818,6 +828,7 @@ func (s *session) readDisconnected(oldConn net.Conn, err error) {
 		return
 	}
 
+	verifGate("disc.presock", s)
 	s.socket.Close()
 	if !s.redialForClient(oldConn) {
 		s.changeStatus(statusPassiveClosed)
@@ -832,6 +843,7 @@ func (s *session) redialForClient(oldConn net.Conn) bool {
 	}
 	s.lock.Lock()
 	defer s.lock.Unlock()
+	verifGate("redial.locked", s)
 	// Avoid repeated calls from write and readDisconnected methods
 	if oldConn != s.getConn() {
 		return true
@@ -879,6 +891,7 @@ func (s *session) startReadAndHandle() {
 		if err != nil {
 			ctx.stat = statBadMessage.Copy(err)
 		}
+		verifGate("read.got", s)
 		s.graceCtxWaitGroup.Add(1)
 		if !Go(func() {
 			defer s.peer.putContext(ctx, true)
@@ -908,6 +921,7 @@ func (s *session) write(message Message) (net.Conn, *Status) {
 	default:
 	}
 
+	verifGate("write.prelock", s)
 	s.writeLock.Lock()
 	defer s.writeLock.Unlock()
 
@@ -919,6 +933,7 @@ func (s *session) write(message Message) (net.Conn, *Status) {
 		s.socket.SetWriteDeadline(deadline)
 		err = s.socket.WriteMessage(message)
 	}
+	verifGate("write.done", s)
 
 	if err == nil {
 		return usedConn, nil
